@@ -136,6 +136,12 @@ func caseList(thorough bool) []kase {
 			}
 		}
 	}
+	rc := reuseContexts()
+	for _, v := range reuseVariants(thorough) {
+		for _, cx := range rc {
+			out = append(out, kase{caseIn{v.Fn, v.ID, 0, cx, reuseSupply}, v})
+		}
+	}
 	if thorough {
 		cc := composedContexts()
 		for _, v := range variants(0) {
@@ -243,6 +249,9 @@ func topSrc(v variant) string {
 func sources(v variant, cx string) (main, mod string) {
 	if strings.HasPrefix(cx, "g:") {
 		return composedSources(v, cx)
+	}
+	if strings.HasPrefix(cx, "r:") {
+		return reuseSources(v, cx)
 	}
 	switch cx {
 	case "top", "clone-run":
@@ -452,6 +461,9 @@ func retagVariant(v variant, tag byte) variant {
 }
 
 func runCase(idx int, c kase, detail bool) (out caseOut) {
+	if strings.HasPrefix(c.in.Ctx, "r:") {
+		return runReuse(idx, c, detail)
+	}
 	out.I = idx
 	tag := tagOf(idx)
 	v, cx, supply := retagVariant(c.v, tag), c.in.Ctx, c.in.Supply
@@ -1067,6 +1079,8 @@ func Check(r *ev.Run, replay string) {
 	r.Set("served_by_when_both", served)
 	r.Set("cases", len(cases))
 	r.Set("contexts", contexts)
+	r.Set("reused_vm_contexts", fmt.Sprintf("%d: OS of the priming run R1 %v x (entry, supply of R2's OS) %v x inner %v, on %d call templates (quick: every third, thorough: all); R1 = os.getpid() on the same VM, same Go context value wherever the second OS is not itself in the context",
+		len(reuseContexts()), rR1, rEntrySupply, rInner, len(reuseVariants(thorough))))
 	if thorough {
 		r.Set("composed_contexts", fmt.Sprintf("%d: definitions in %v x host entry %v x call chains of 1..2 links over %v (plain spelling)", len(composedContexts()), gLocs, gEntries, gLinks))
 	}
@@ -1093,11 +1107,44 @@ func Check(r *ev.Run, replay string) {
 	}
 	sort.Strings(ck)
 	folded := 0
+	fnsIn := map[string]map[string]bool{} // ctx|supply -> functions that have cases there
+	for _, c := range cases {
+		key := c.in.Ctx + "|" + c.in.Supply
+		if fnsIn[key] == nil {
+			fnsIn[key] = map[string]bool{}
+		}
+		fnsIn[key][c.in.Fn] = true
+	}
 	for _, key := range ck {
-		if len(perCtx[key])*2 >= len(have) {
+		if len(perCtx[key])*2 >= len(fnsIn[key]) {
 			wholesale[key] = true
 		}
 	}
+	// Reused-VM contexts: one report per (OS of the first run, way the second run's OS is supplied) when (almost)
+	// every entry / inner form with that pair fails.
+	pairOf := func(cx string) string {
+		if !strings.HasPrefix(cx, "r:") {
+			return ""
+		}
+		p := strings.Split(cx, ":")
+		return p[1] + ":" + p[2]
+	}
+	badPair := map[string]bool{}
+	{
+		tot, bad := map[string]int{}, map[string]int{}
+		for _, cx := range reuseContexts() {
+			tot[pairOf(cx)]++
+			if wholesale[cx+"|"+reuseSupply] {
+				bad[pairOf(cx)]++
+			}
+		}
+		for pr, t := range tot {
+			if bad[pr]*10 >= t*9 {
+				badPair[pr] = true
+			}
+		}
+	}
+	pairReported := map[string]int{}
 	// A link (spawn, go, callback, try, direct) through which nothing is mediated makes every composed context
 	// containing it fail: report the link once instead of each of those contexts.
 	linksOf := func(cx string) []string {
@@ -1149,6 +1196,14 @@ func Check(r *ev.Run, replay string) {
 				continue
 			}
 		}
+		viaPair := ""
+		if pr := pairOf(parts[0]); pr != "" && badPair[pr] {
+			viaPair = pr
+			pairReported[pr]++
+			if pairReported[pr] > 1 {
+				continue
+			}
+		}
 		var fl []string
 		for fn := range fns {
 			fl = append(fl, fn)
@@ -1189,12 +1244,23 @@ func Check(r *ev.Run, replay string) {
 				cases[first].in, f0.Observed, f0.Expected)
 			continue
 		}
+		if viaPair != "" {
+			pp := strings.Split(viaPair, ":")
+			r.Report("reuse-unmediated:"+viaPair,
+				fmt.Sprintf("on a reused VM whose first run had OS %q, a second run whose OS is supplied by %q is not served by that OS (at least 90%% of the entry/inner forms); first: context %s, %s: %s",
+					pp[0], pp[1], parts[0], cases[first].in.Fn, f0.What),
+				cases[first].in, f0.Observed, f0.Expected)
+			continue
+		}
 		r.Report("context-unmediated:"+parts[0]+":"+parts[1],
 			fmt.Sprintf("%d of %d functions are not served by the recording OS in context %s with the OS supplied by %s; e.g. %s: %s; consequences in the same context: %s",
-				len(fns), len(have), parts[0], parts[1], cases[first].in.Fn, f0.What, strings.Join(al, " ")),
+				len(fns), len(fnsIn[key]), parts[0], parts[1], cases[first].in.Fn, f0.What, strings.Join(al, " ")),
 			cases[first].in, f0.Observed, f0.Expected)
 	}
 	r.Set("consequent_failures_folded", folded)
+	if len(pairReported) > 0 {
+		r.Set("contexts_folded_into_reuse_reports", pairReported)
+	}
 	if len(linkReported) > 0 {
 		r.Set("contexts_folded_into_link_reports", linkReported)
 	}
@@ -1275,7 +1341,7 @@ func Check(r *ev.Run, replay string) {
 		m, mod := sources(cases[i].v, cases[i].in.Ctx)
 		r.Sample(map[string]any{"case": cases[i].in, "main": m, "module": mod, "want": cases[i].v.Want, "log": cases[i].v.Log, "post": cases[i].v.Post})
 	}
-	r.Set("rule", fmt.Sprintf("every discovered function of os (%d attrs), filepath, fmt, the print/printf/errorf/sprintf and shell-style builtins and every attribute of file objects from open/create/stdin/stdout (%d names, %d with templates, %d skipped with reason) x %d argument tuples per spelling x path spellings %v x %d contexts %v (thorough adds 240 composed contexts x plain spelling: definitions in main|module x entry by Eval|clone.Run|clone.Call|risor.Call x chains of 1..2 links over direct|spawn|go|callback|try) x OS supplied by {WithOS, context, both}; each case in a worker process against fresh recording OS instances: expected calls logged in order, answer observed, post-state, real cwd/env/sentinel tree//,TMPDIR/stdio untouched; thorough: all workers under strace -f -e trace=%%file,%%process, no syscall argument contains the marker. distinct = (function, tuple, serving instance, answer) and (context, supply, serving instance) keys",
+	r.Set("rule", fmt.Sprintf("every discovered function of os (%d attrs), filepath, fmt, the print/printf/errorf/sprintf and shell-style builtins and every attribute of file objects from open/create/stdin/stdout (%d names, %d with templates, %d skipped with reason) x %d argument tuples per spelling x path spellings %v x %d contexts %v (thorough adds 240 composed contexts x plain spelling: definitions in main|module x entry by Eval|clone.Run|clone.Call|risor.Call x chains of 1..2 links over direct|spawn|go|callback|try) x OS supplied by {WithOS, context, both}; plus 81 reused-VM contexts (first run with no/option/context OS A, then the case as second run on the same VM with OS B by vm.RunCode option | risor.WithVM+WithOS | context, entered by RunCode | incremental Run | vm.Call | risor.Call, directly | in a spawned goroutine | in an imported module; B alone must serve) x every third template (quick) / all templates (thorough); each case in a worker process against fresh recording OS instances: expected calls logged in order, answer observed, post-state, real cwd/env/sentinel tree//,TMPDIR/stdio untouched; thorough: all workers under strace -f -e trace=%%file,%%process, no syscall argument contains the marker. distinct = (function, tuple, serving instance, answer) and (context, supply, serving instance) keys",
 		len(moduleAttrsOS()), len(names), len(have), len(skipped), len(variants(0)), spellings(thorough), len(contexts), contexts))
 }
 
